@@ -263,6 +263,9 @@ def run_impl(case, run):
     from typhon.geographical import GeoIndex
     lat, lon = np.array(case["lat"], dtype=float), np.array(case["lon"], dtype=float)
     qlat, qlon = np.array(case["qlat"], dtype=float), np.array(case["qlon"], dtype=float)
+    if case.get("int_dtype"):
+        # whole-degree coordinates handed over as integer arrays (np.arange grids): same points, another dtype
+        lat, lon, qlat, qlon = (a.astype(np.int64) for a in (lat, lon, qlat, qlon))
     kwargs = {}
     if case["metric"] is not None:
         kwargs["metric"] = case["metric"]
@@ -324,6 +327,19 @@ def run_impl(case, run):
             o["dist"] = [float(x) for x in dist.ravel()] if dist.dtype.kind in "fiu" else None
         else:
             o["error"] = f"pairs has shape {list(pairs.shape)}"
+        # history: the caller reuses its query buffers -- the same array OBJECTS are overwritten in place with the query
+        # points in reversed order and the same index is queried again; pair (i, j) must come back as (i, m-1-j)
+        if run.get("requery_in_place") and "pairs" in o and qlat.size > 1:
+            try:
+                qlat[:] = qlat[::-1].copy()
+                qlon[:] = qlon[::-1].copy()
+                p3 = np.asarray(index.query(qlat, qlon, r=radius_arg(case["r"]))[0])
+                mm = qlat.size
+                o["pairs_requery"] = [] if p3.size == 0 else sorted((int(a), mm - 1 - int(b)) for a, b in zip(p3[0], p3[1]))
+                qlat[:] = qlat[::-1].copy()
+                qlon[:] = qlon[::-1].copy()
+            except Exception as e:  # noqa
+                o["pairs_requery_error"] = f"second query() on the overwritten arrays: {type(e).__name__}: {str(e)[:120]}"
         # the same query without distances: the pairs must be the same pairs (indices of the arrays as passed in)
         try:
             p2 = np.asarray(index.query(qlat, qlon, r=radius_arg(case["r"]), return_distance=False))
@@ -493,7 +509,8 @@ def gen_runs(rng, case, k):
         # history: between the construction of the index and its query, other indexes are built (same size and
         # another size, same and other points) -- the answer of the first index must not depend on them
         runs.append({"tree": tree, "leaf": rng.choice([None, None, 1, 2, 5, 40, 100]), "shuffle": shuffle,
-                     "seed": rng.randrange(2 ** 31), "others_between": rng.choice([0, 0, 1, 2])})
+                     "seed": rng.randrange(2 ** 31), "others_between": rng.choice([0, 0, 1, 2]),
+                     "requery_in_place": rng.random() < 0.4})
     if not any(r["shuffle"] is not False for r in runs):
         runs[0]["shuffle"] = True
     return runs
@@ -565,7 +582,13 @@ def gen_case(rng, k, nruns, big=None):
             pts[rng.randrange(n)] = pts[rng.randrange(n)]
     if m > 1 and rng.random() < 0.2:
         qs[rng.randrange(m)] = rng.choice(pts)
-    case = {"id": k, "style": style, "metric": metric,
+    int_dtype = False
+    if rng.random() < 0.08:
+        # whole-degree coordinates, handed to GeoIndex as INTEGER arrays (np.arange grids): the same points as the floats
+        pts = [(float(max(-90, min(90, round(p[0])))), float(max(-180, min(180, round(p[1]))))) for p in pts]
+        qs = [(float(max(-90, min(90, round(q[0])))), float(max(-180, min(180, round(q[1]))))) for q in qs]
+        int_dtype, r_km = True, None
+    case = {"id": k, "style": style, "metric": metric, "int_dtype": int_dtype,
             "lat": [float(p[0]) for p in pts], "lon": [float(p[1]) for p in pts],
             "qlat": [float(q[0]) for q in qs], "qlon": [float(q[1]) for q in qs]}
     # radius: aimed just off the distance of a random pair, or log-uniform metres .. half the circumference,
@@ -702,6 +725,17 @@ def check_cases(ctx, cases, tbl, stats):
                                      f"query(return_distance=False): pairs missing {miss2[:5]} ({len(miss2)}), not within the radius "
                                      f"{extra2[:5]} ({len(extra2)}), repeated {len(nd) - len(ndset)}; with distances the call returned "
                                      f"{sorted(got)[:5]}; shuffler {None if sh is None else sh[:8]}"))
+            # 1c. the query arrays overwritten in place and queried again
+            if "pairs_requery_error" in o:
+                problems.append(("requery-error", o["pairs_requery_error"]))
+            elif "pairs_requery" in o:
+                rq = set(o["pairs_requery"])
+                miss3 = sorted(set(spec) - rq - greyset)
+                extra3 = sorted(rq - set(spec) - greyset)
+                if miss3 or extra3:
+                    problems.append(("history-requery:" + tag,
+                                     f"the same index queried again with the SAME query arrays overwritten in place (reversed order): pairs "
+                                     f"missing {miss3[:5]} ({len(miss3)}), not within the radius {extra3[:5]} ({len(extra3)}) (indices mapped back)"))
             # 2. the distances: one per pair, kilometres, aligned
             if dists is None or o["dist_shape"] != [len(got)]:
                 sig = "zero-pair-shortcut" if shortcut else "distances-shape"
